@@ -59,7 +59,7 @@ def _replay(blocks):
         for st, t in zip(sts, tens):
             n += 1
             case = {'principal_values': list(st['l']), 'quaternion': list(st['q']), 'tensor_s11_s22_s33_s12_s13_s23': t.tolist()}
-            for k in (1.0, 0.5, 3.0, 2.0 ** -40):
+            for k in (1.0, 0.5, 3.0, 2.0 ** -40, 0.1, 123.456):      # the last two are not exactly representable: every product rounds
                 for fn in fns:
                     try:
                         got = float(getattr(EQ, fn)(*(k * t)))
@@ -91,6 +91,28 @@ def _replay(blocks):
                 r = check_values(fn, plain[i], st, 1.0, {'principal_values': list(st['l']), 'quaternion': list(st['q']), 'input': 'column'})
                 if r:
                     viol.append(r)
+        # the same rows in ONE column at magnitudes 2^-40 ... 2^20 (a guard relative to the largest row would show), and the frame with
+        # its tensor columns stored in another order plus a foreign column (components are named, not positional)
+        ks = np.array([2.0 ** (-40 if i % 3 == 0 else 20 if i % 3 == 1 else 0) for i in range(len(arr))])
+        arr_k = arr * ks[:, None]
+        df_k = pd.DataFrame(arr_k, columns=COLS, index=df.index)
+        df_perm = df_k[['S23', 'S12', 'S11', 'S33', 'S13', 'S22']].copy()
+        df_perm.insert(2, 'temperature', 20.0)
+        for fn in fns:
+            try:
+                plain_k = np.asarray(getattr(EQ, fn)(*[arr_k[:, j] for j in range(6)]), dtype=np.float64)
+                a_perm = getattr(df_perm.equistress, fn)().to_numpy()
+            except Exception as ex:
+                viol.append(('%s (mixed magnitudes / permuted columns) raised %r' % (fn, ex), {'rows': len(arr)}, None, None))
+                continue
+            for i, st in enumerate(sts):
+                r = check_values(fn, plain_k[i], st, ks[i], {'principal_values': list(st['l']), 'quaternion': list(st['q']), 'input': 'column with rows at magnitudes 2^-40, 2^20, 1', 'scale': ks[i]})
+                if r:
+                    viol.append(r)
+                    break
+            if not np.array_equal(a_perm, plain_k):
+                viol.append(('accessor %s of a frame whose tensor columns are stored in another order differs from the plain function called by component' % fn,
+                             {'rows': len(arr), 'column_order': list(df_perm.columns)}, plain_k[:3].tolist(), a_perm[:3].tolist()))
         pa = acc.principals()
         if not np.allclose(pa.to_numpy(), np.sort(np.array([sorted(st['l']) for st in sts], dtype=float), axis=1), atol=1e-11) or list(pa.columns) != ['min_principal', 'med_principal', 'max_principal']:
             viol.append(('accessor principals() wrong / wrong column order', {'rows': len(arr)}, None, None))
@@ -128,6 +150,28 @@ def run(chk):
         chk.evals(tot * 4)
         chk.cov['traces_validated_against_impl'] += tot
         os.remove(res.dump_path)
+    # pure shear in Voigt form (a 45 degree image of (tau, -tau, 0): no rational rotation reaches it), normal components +0.0 and -0.0
+    import pylife.stress.equistress as EQ
+    with warnings.catch_warnings():
+        warnings.simplefilter('ignore')
+        for tau in (1.0, -30.0, 2.0 ** -40):
+            for pos in (3, 4, 5):
+                for z in (0.0, -0.0):
+                    t = [z, z, z, 0.0, 0.0, 0.0]
+                    t[pos] = tau
+                    a = abs(tau)
+                    want = {'mises': np.sqrt(3.0) * a, 'tresca': 2 * a, 'max_principal': a, 'min_principal': -a, 'signed_mises_trace': np.sqrt(3.0) * a, 'signed_tresca_trace': 2 * a}
+                    for fn, w in want.items():
+                        chk.evals(1)
+                        try:
+                            got = float(getattr(EQ, fn)(*t))
+                        except Exception as ex:
+                            chk.violation('%s raised %r' % (fn, ex), {'tensor_s11_s22_s33_s12_s13_s23': t}, part='pure_shear')
+                            continue
+                        if not close(got, w, 1e-12, 1e-300):
+                            chk.violation('%s of a pure shear state differs from its definition (zero trace: sign +1, also when the normal components are -0.0)' % fn,
+                                          {'tensor_s11_s22_s33_s12_s13_s23': [repr(x) for x in t]}, float(w), got, part='pure_shear')
+                    chk.nontrivial(('pure_shear', tau, pos, repr(z)))
     chk.cov['rule'] = ('TLC enumerates principal values in -L..L^3 (uniaxial, pure shear, hydrostatic, repeated, zero included) x integer quaternions with |q|^2 <= 15 (cube rotations, 45/120 degree '
                        'rotations, generic ones) and proves rotation invariance of the component formulas; the float image of every rotated tensor is evaluated by all nine plain functions at scale '
                        '1, 1/2, 3 and 2^-40, as columns and through df.equistress; expected values come from the principal values, never from an eigen-solver. '
